@@ -4,6 +4,7 @@ CONSTANTS
   MaxTxPerBlock = 2
   MaxOps = 100000
   Window = 0
+  BlockBudget = 1000
   ActiveTxs = {"p1", "p2", "p3", "p4", "p6", "p7"}
   KF_FrozenLedgerHeight = FALSE
   KF_PlayKeepsStaleReader = FALSE
